@@ -523,7 +523,7 @@ func callSSA(i *interpreter, caller *frame, callpos token.Pos, fn *ssa.Function,
 		}
 	}
 	if fn.Pkg != nil {
-		if reason := i.cfg.forbidden(fn.Pkg.Pkg.Path()); reason != "" {
+		if reason := i.cfg.forbidden(fn.Pkg.Pkg.Path()); reason != "" && !allowedLibFuncs[fn.String()] {
 			panic(engineError{"call into unmodelled library function " + fn.String() + " (" + reason + ")"})
 		}
 	}
@@ -555,6 +555,13 @@ func callSSA(i *interpreter, caller *frame, callpos token.Pos, fn *ssa.Function,
 		runFrame(fr)
 	}
 	return fr.result
+}
+
+// allowedLibFuncs are trivial accessors of otherwise unmodelled libraries that are
+// interpreted from their own SSA (field get/set, no other callee).
+var allowedLibFuncs = map[string]bool{
+	"(*github.com/spf13/cobra.Command).Context":    true,
+	"(*github.com/spf13/cobra.Command).SetContext": true,
 }
 
 type panicInfo struct {
